@@ -618,6 +618,7 @@ class HistoryRun(object):
         ds_ids = [i for i in range(len(w.comps)) if w.is_ds[i]]
         for d in w.graph_defects():
             self.fail.append((d, 0))
+        self.dpts = dict((i_, [w.index[id(d)] for d in dr.get_dependents(c_) if id(d) in w.index]) for i_, c_ in enumerate(w.comps))
         for step, op in enumerate(self.ops):
             if op[0] == "find":
                 # spec_factory.find(spec, pattern): the third registration entry point (through filters._add_filter)
@@ -639,6 +640,16 @@ class HistoryRun(object):
                     for p in pl:
                         log.setdefault(c, {})
                         log[c][p] = max(log[c].get(p, filters.MAX_MATCH), filters.MAX_MATCH)
+                # find registered a NEW dependent of the spec: the set dr.get_dependents(spec) grew, and with it the order
+                # in which it iterates may have changed (it decides which budget wins when two dependents hold the same
+                # filter string) - tell the model the order the code uses from now on
+                for i_, c_ in enumerate(w.comps):
+                    now = [w.index[id(d)] for d in dr.get_dependents(c_) if id(d) in w.index]
+                    if now != self.dpts.get(i_, now):
+                        self.lines.append("reorder\t%d\t%s" % (i_, ",".join(map(str, now)) or "-"))
+                        self.impl.append("ok")
+                        self.tags.append("find:reordered-dependents")
+                    self.dpts[i_] = now
                 for d in ds_ids:
                     self.lines.append("reg\t%d" % d)
                     self.impl.append(show_allow(filters.FILTERS.get(w.comps[d], {})))
